@@ -56,7 +56,7 @@ def mixed_text(r):
         elif k < 0.9:
             lines.append(CC.gen_redirect_rules(r, k=1).strip())
         else:
-            lines.append(r.pick(["alias g git", "set log-full", "# c", "after git push \"ci\"", "allow ~nosuchuser/bin/deploy *", "deny ~root/x", "allow-redirect ~nosuchuser/out/**", "alias ~nobody9/bin/t abc", "ask ~*/x", "deny-redirect ~/.ssh/**"]))
+            lines.append(r.pick(["alias g git", "set log-full", "# c", "after git push \"ci\"", "allow-redirect /tmp/**/[z-a]*", "deny-redirect **/*[\\]", "ask-redirect /var/**/[\\q]", "allow ~nosuchuser/bin/deploy *", "deny ~root/x", "allow-redirect ~nosuchuser/out/**", "alias ~nobody9/bin/t abc", "ask ~*/x", "deny-redirect ~/.ssh/**"]))
     return [l for l in lines if l]
 
 
